@@ -54,6 +54,11 @@ def slice_facts(kind, p, outs, nb, c):
             n_out, c_out = idx[en], idx[ec]
             want = (n_out, c_out // k)
             for term in cell:
+                if term.base.role in ('const', 'uninit'):
+                    problems.append(('offset' if term.base.role == 'const' else 'uninitialised',
+                                     'output %d, slice (n=%d, c=%d) contains %s: T(0) != 0, the map is not linear'
+                                     % (ti, n_out, c_out, term.base.name)))
+                    break
                 got = tuple(term.bchan[:2])
                 if got != want:
                     problems.append(('leak', 'output %d, slice (n=%d, c=%d) reads input slice (n=%d, c=%d)'
@@ -85,7 +90,8 @@ def w_linear(S, item):
     res = {'cmp': 1, 'diff': 0, 'findings': [], 'sample': None}
     sigs = []
     label = kind
-    for (nb, c) in ((2, 3), (1, 1)):
+    shapes = ((2, 3), (1, 1)) if not p.get('tiny') else ((7, 2), (2, 7), (1, 1))
+    for (nb, c) in shapes:
         try:
             f, args, ins, label = entries.build(S, kind, p, nb=nb, c=c)
         except PyExc as e:
@@ -96,7 +102,7 @@ def w_linear(S, item):
         cfg = ','.join('%s=%s' % kv for kv in sorted(p.items()) if kv[0] in ('mode', 'fn', 'dim', 'biort'))
         if o.kind == 'raises':
             # a transform that raises on this configuration computes nothing: not a linearity question
-            if nb == 2:
+            if (nb, c) == shapes[0]:
                 res['sample'] = {'entry': label, 'params': p, 'outcome': 'raises %s (not a linearity obligation)' % o.exc.name}
             S.take_findings()
             return res
@@ -121,11 +127,11 @@ def w_linear(S, item):
             S.take_findings()
             return res
         sigs.append(sig)
-    if sigs[0].keys() != sigs[1].keys() or any(sigs[0][k] != sigs[1][k] for k in sigs[0]):
+    if any(sg.keys() != sigs[0].keys() or any(sigs[0][k] != sg[k] for k in sigs[0]) for sg in sigs[1:]):
         res['diff'] = 1
         res['findings'].append(finding('R-SLICE', label, 'batch-size-dependence',
-                                       '%s with %s: the per-slice operator with N=2, C=3 differs from the one with N=1, C=1'
-                                       % (label, p)))
+                                       '%s with %s: the per-slice operator differs between the batch / channel counts %s'
+                                       % (label, p, list(shapes))))
     else:
         res['sample'] = {'entry': label, 'params': p, 'slices_checked': 6, 'distinct_band_operators': len(sigs[0]),
                          'verdict': 'linear forms only; every output slice reads its own input slice through one operator'}
@@ -256,6 +262,15 @@ def _w_pure(S, item):
                 if e['kind'] in PERSISTENT_WRITE_EVENTS:
                     writes.append((e['kind'], e.get('target'), e['loc']))
             if o.kind == 'ok':
+                from .. import ops as _ops
+                for t_ in entries.flatten(o.value):
+                    for role_, name_ in sorted(_ops.opaque_roles(t_)):
+                        if role_ == 'uninit':
+                            res['diff'] = 1
+                            res['findings'].append(finding('R-PURE', label, 'result-reads-uninitialised-memory',
+                                                           '%s with %s: part of the result is %s that is never '
+                                                           'written: it depends on what the allocator hands out '
+                                                           '(earlier calls, other threads)' % (label, p, name_)))
                 fps.append((rg, rep, fingerprint(entries.flatten(o.value), ins, rb0)))
             elif o.kind == 'violation':
                 fps.append((rg, rep, ('violation', o.exc.rule)))
@@ -530,8 +545,6 @@ def _w_dtype(S, item):
         outs = entries.flatten(o.value)
         if contig:
             for ti, t in enumerate(outs):
-                if t.ndim == 0 and t.is_zero():
-                    continue
                 if t.dtype != 'in':
                     res['diff'] = 1
                     res['findings'].append(finding('R-DTYPE', label, 'output-dtype:%s' % t.dtype,
